@@ -147,3 +147,88 @@ PROPS["C05"] = dict(
                                                                  "choice_points_checked": 200}),
     assumptions=[A_SAN, A_GEN],
 )
+
+
+def _decode_prop(pid, title, monitor, level_text, level_note, rule, floor, quick=(260, 500), thorough=(6000, 14000), extra_assume=()):
+    return dict(
+        title=title, level="exploration",
+        technique="runtime trace/graph monitor over generated decode scenarios with generator-side grammar truth, under ASan/UBSan (pool red zones on)",
+        level_text=level_text, level_note=level_note, rule=rule,
+        stages=[
+            dict(harness="h_decode", flavor="asan", quick=quick[0], thorough=thorough[0], args=["--x-monitor", monitor], name="h_decode_asan"),
+            dict(harness="h_decode", flavor="fast", quick=quick[1], thorough=thorough[1], args=["--x-monitor", monitor], name="h_decode_fast"),
+        ],
+        floor=floor,
+        assumptions=[A_SAN, A_GEN, "grammar truth is the generator's own automaton (never fsg_model.c / jsgf.c)"] + list(extra_assume),
+    )
+
+
+_SCEN = ("one case = one decode scenario: model (en-us 16k/8k, fr-fr) x search parameters (default / narrow / fully open beams, lw, wip, pip, "
+         "silprob, fillprob, fillers and alternates on/off) x generated grammar (FSG text, right-linear JSGF, slot JSGF, alignment text; "
+         "with or without the transcript) x audio (bundled recordings whole / excerpt / reversed / padded / noisy / clipped, few-frame "
+         "snippets, adversarial synthetic signals) x calling pattern (full_utt, streaming in 2048 / random / tiny / huge chunks, first chunk "
+         "< 1 frame, buffered no_search prefixes, int16 or float32); partial results are observed at random points. ")
+
+PROPS["C01"] = _decode_prop(
+    "C01", "Recognition results are sentences of the active grammar", "C01",
+    "exploration: after every utterance the reported words (segmentation with nulls/fillers dropped and alternates mapped to base forms, "
+    "which must equal the hypothesis string) are run through a reference NFA built by the generator: accepted start->final for final "
+    "results, prefix-viable from the start state for partial results; 'no hypothesis' is always acceptable.",
+    "fillers are recognised by spelling (<..>, [..], +..+) exactly as the bundled filler dictionaries define them",
+    _SCEN + "Non-trivial = a hypothesis was returned or partial results were observed; distinct = hash of (grammar text, audio, hypothesis).",
+    dict(min_evaluations=200, min_distinct=60, counters={"final_results_checked": 100, "partial_results_checked": 100, "final_no_hypothesis": 5,
+                                                        "grammar_fsg-text": 20, "grammar_jsgf-right-linear": 20, "grammar_jsgf-slots": 20, "grammar_align-text": 20}))
+
+PROPS["C03"] = _decode_prop(
+    "C03", "Word segmentation tiles the utterance and agrees with hypothesis and score", "C03",
+    "exploration: for every final and partial result the segment list is checked as a trace: first word at frame 0, each word starts on the frame "
+    "after the previous one ends, non-empty, inside the frames searched so far, null segments are zero-length markers at the previous end "
+    "frame; hypothesis string == base forms of non-filler segments; sum(ascr+lscr) == reported score exactly; sum of the processing calls' "
+    "return values plus the frames searched inside end_utt == closed-form front-end frame count for the samples supplied.",
+    "decoder_n_frames() is used only through its difference across decoder_end_utt (it is output_frame+1 by construction)",
+    _SCEN + "Audio lengths emphasise 0, <1, 1..8 frames. Non-trivial = a segmentation was produced; distinct as for C01.",
+    dict(min_evaluations=200, min_distinct=60, counters={"final_segmentations_checked": 100, "partial_segmentations_checked": 50, "frame_counts_checked": 200,
+                                                        "utterances_shorter_than_one_frame": 3, "utterances_of_1_to_8_frames": 3, "null_segments_seen": 5}))
+
+PROPS["C11"] = _decode_prop(
+    "C11", "The word lattice is a well-formed, time-consistent graph of grammar paths", "C11",
+    "exploration: every lattice (final, and mid-utterance at random points) is read completely through the public node/link iterators and "
+    "checked by an independent graph pass: entries/exits mirror each other, one node without entries (= start) and one without exits (= end), "
+    "acyclic (Kahn), every node forward-reachable from start and backward-reachable from end, every link joins a word ending at t to one "
+    "starting at t+1 inside the utterance and inside the node's end-frame range; the generator's grammar NFA state sets are propagated along "
+    "the DAG and 120 random start-to-end walks are checked exactly as grammar paths; the first-best segmentation must be a node path with "
+    "matching boundaries; a second decoder_lattice() call must return the same object.",
+    "synthetic <s> / </s> nodes (created when there are several start/end candidates) are recognised by word and position and only required "
+    "to connect nodes starting at frame 0 / ending at the last frame; a NULL lattice is counted, not judged; the union of state sets can hide "
+    "an off-grammar path that merges with a valid one (the random walks are exact)",
+    _SCEN + "Audio is capped at ~4 s. Non-trivial and distinct as for C01.",
+    dict(min_evaluations=150, min_distinct=40, counters={"final_lattices_checked": 60, "partial_lattices_checked": 20, "first_best_found_in_lattice": 40,
+                                                        "lattices_with_synthetic_start": 3, "lattices_with_real_start": 3, "lattice_paths_walked": 1000}),
+    quick=(200, 400), thorough=(5000, 12000))
+
+PROPS["C12"] = _decode_prop(
+    "C12", "N-best lists and lattice scores are ordered and probabilistically sane", "C12",
+    "exploration: on every lattice the monitor runs lattice_bestpath, lattice_posterior and the N-best iterator (up to 60 / 200 entries): the "
+    "best-path score must equal an independent max-plus DP over the observed DAG and enter the end node; N-best scores must be non-increasing, "
+    "each entry's segmentation a node path of the lattice ending at the end node and its string the non-filler words of that path; link and "
+    "best-path posteriors must be <= 0 within the log-add rounding bound; the forward total (links into end), the backward total (links out "
+    "of start) and the posterior mass entering and leaving every inner node must agree; lattice_posterior must be repeatable.",
+    "rounding bound = half a log unit per logmath_add that fed the quantity (C19), propagated along the DAG by the monitor itself, so it is "
+    "neither a magic constant nor tighter than the arithmetic allows; nothing is demanded of the relation between the first N-best score and the "
+    "best-path score (the statement does not relate them)",
+    _SCEN + "Audio is capped at ~4 s. Non-trivial and distinct as for C01.",
+    dict(min_evaluations=150, min_distinct=40, counters={"bestpaths_checked": 50, "posterior_lattices_checked": 50, "nbest_entries_checked": 100,
+                                                        "nbest_lists_with_several_entries": 10, "node_conservation_checks": 500}),
+    quick=(200, 400), thorough=(5000, 12000))
+
+PROPS["C14"] = _decode_prop(
+    "C14", "The JSON result is well-formed and says what the iterators say", "C14",
+    "exploration: decoder_result_json at level 0/1/2 with start offsets from 0 to 1e6 (and negative), frame rates 50/100/200, for final, "
+    "partial and empty results is parsed by a strict RFC 8259 parser written for the monitor (one object, trailing newline, no extensions), "
+    "its length+1 is compared with the size AddressSanitizer recorded for the allocation, and every t/b/d/p field and nested w list is compared "
+    "with decoder_hyp, the segment iterator and the alignment iterators for the same result; a second stage adds words with hostile "
+    "spellings (quotes, backslashes, control and non-ASCII bytes) through decoder_add_word and decodes them.",
+    "times compared to 0.0005 (three printed decimals); probabilities to 0.0005; allocation size is only available in the ASan flavour",
+    _SCEN + "Non-trivial and distinct as for C01.",
+    dict(min_evaluations=200, min_distinct=60, counters={"json_level0_checked": 100, "json_level1_checked": 20, "json_level2_checked": 20,
+                                                        "json_buffer_sizes_checked": 50}))
